@@ -217,7 +217,8 @@ def sim_named_temporary_file(prefix='', suffix='', dir=None, delete=False):
     fs.tmp_counter += 1
     env = CTX.env
     env.tmp_counter += 1
-    name = _os.path.join(str(dir), f'{prefix}{env.tmp_counter:06d}{suffix}')
+    # as tempfile._mkstemp_inner: the directory is made absolute TEXTUALLY (os.path.abspath collapses 'x/..')
+    name = _os.path.join(_os.path.abspath(str(dir)), f'{prefix}{env.tmp_counter:06d}{suffix}')
     _guard('mktemp', SimPath(name))
     fd = _os.open(name, _os.O_CREAT | _os.O_EXCL | _os.O_WRONLY, 0o600)
     _os.close(fd)
